@@ -1039,7 +1039,8 @@ class _FnAnalysis:
             # a local container now also holds the arguments
             f2 = c.func if isinstance(c, ast.Call) else None
             if isinstance(f2, ast.Attribute) and isinstance(f2.value, ast.Name) and f2.value.id in st.env:
-                held = frozenset().union(*[a.allpaths for a in args]) if args else frozenset()
+                stored = args[1:] if name == "setdefault" else args  # d.setdefault(key, default): the key is hashed, only the default is stored as a value
+                held = frozenset().union(*[a.allpaths for a in stored]) if stored else frozenset()
                 cur = st.env[f2.value.id]
                 st.env[f2.value.id] = replace(cur, epaths=cur.epaths | held)
             if name in ("pop", "popitem", "setdefault"):
